@@ -575,7 +575,7 @@ def field_values(f, r, total_len):
 # weights: which fields are worth corrupting more often (cross-references between sections of an image first)
 ROLE_WEIGHT = {
     "bytes": 0.15, "elem.int": 0.3, "key.int": 0.3, "val.int": 0.3, "sourcemap.line": 0.1, "sourcemap.column": 0.1,
-    "def.bytecode": 1.0, "peg.litbytes": 0.2, "peg.setword": 0.2, "peg.num": 0.7, "def.clobitset": 0.5,
+    "def.bytecode": 1.0, "peg.rule": 3.0, "peg.litbytes": 0.2, "peg.setword": 0.2, "peg.num": 0.7, "def.clobitset": 0.5,
     "string.len": 0.7, "symbol.len": 0.7, "keyword.len": 0.7, "buffer.len": 1.0, "registry.len": 0.7,
     "tuple.flag": 0.3, "frame.slot.int": 0.2, "env.value.int": 0.2,
 }
@@ -615,7 +615,7 @@ def field_weight(f):
 
 
 def is_hot(f):
-    return f.role in HOT1 or f.role in HOT2 or hot_instr(f) or f.enc == "real"
+    return f.role in HOT1 or f.role in HOT2 or hot_instr(f) or f.enc == "real" or f.role == "peg.rule"
 
 
 def sweep_values(f, total_len):
